@@ -82,6 +82,8 @@ type probeCounts struct {
 	MutatingOnObj      int64 // mutating operations on one object (history length measure)
 	PoolOutstanding    int64 // pooled objects taken and not put back when the run was over (O5, informational)
 	AliasedArgs        int64 // arguments passed as substrings of library-returned strings
+	ObjArgs            int64 // calls of discovered API that were handed objects of the version's type
+	ObjArgAliased      int64 // ... where an argument was the receiver itself or another argument
 }
 
 func (a *probeCounts) add(b *probeCounts) {
@@ -100,6 +102,8 @@ func (a *probeCounts) add(b *probeCounts) {
 	a.MutatingOnObj += b.MutatingOnObj
 	a.PoolOutstanding += b.PoolOutstanding
 	a.AliasedArgs += b.AliasedArgs
+	a.ObjArgs += b.ObjArgs
+	a.ObjArgAliased += b.ObjArgAliased
 }
 
 type cell struct {
@@ -266,7 +270,10 @@ type opOut struct {
 
 // callOp performs the library call(s) of one operation. It is used by the
 // tasks (under the scheduler) and by the calm re-evaluation alike.
-func callOp(a verAPI, op Op, obj unsafe.Pointer, lastErr error, out *opOut) {
+// live: the caller's objects for kExtra parameters of the object type (in
+// order); nil means "rebuild them from the values recorded in the arguments",
+// every one a distinct fresh object.
+func callOp(a verAPI, op Op, obj unsafe.Pointer, lastErr error, out *opOut, live []unsafe.Pointer) {
 	defer func() {
 		if r := recover(); r != nil {
 			if rt.IsAbort(r) {
@@ -342,7 +349,24 @@ func callOp(a verAPI, op Op, obj unsafe.Pointer, lastErr error, out *opOut) {
 		for len(args) < len(fn.Params) {
 			args = append(args, "")
 		}
-		rs, inputs := fn.Call(obj, args)
+		var objs []unsafe.Pointer
+		for i, k := range fn.Params {
+			if k != "obj" && k != "objptr" {
+				continue
+			}
+			if live != nil && len(objs) < len(live) {
+				objs = append(objs, live[len(objs)])
+				continue
+			}
+			p := a.New()
+			if strings.HasPrefix(args[i], "o:") {
+				if b, err := hex.DecodeString(args[i][2:]); err == nil && len(b) == len(a.Bytes(p)) {
+					a.FromBytes(p, string(b))
+				}
+			}
+			objs = append(objs, p)
+		}
+		rs, inputs := fn.Call(obj, args, objs)
 		out.res = canonResults(rs, a)
 		if len(inputs) > 0 {
 			// the caller reuses its buffers: what it was handed must not change
@@ -411,7 +435,13 @@ func (x *runCtx) execOp(tc *taskCtx, opi int, op Op) {
 	if op.K == kExtra || op.K == kErrStr {
 		dLock = -1
 	}
-	unlock := x.lockCells(op.C, dLock)
+	argCells := op.argCells()
+	for _, i := range argCells {
+		if i < 0 || i >= len(x.cells) {
+			return
+		}
+	}
+	unlock := x.lockCells(append([]int{op.C, dLock}, argCells...)...)
 	defer unlock()
 
 	var a verAPI
@@ -442,6 +472,22 @@ func (x *runCtx) execOp(tc *taskCtx, opi int, op Op) {
 			return
 		}
 		d = nil // D is a flag for this kind, not a cell
+		nObj := 0
+		for _, k := range fn.Params {
+			if k == "obj" || k == "objptr" {
+				nObj++
+			}
+		}
+		if nObj != len(argCells) {
+			return
+		}
+		for _, i := range argCells {
+			if x.cells[i].api.Ver() != a.Ver() {
+				return
+			}
+		}
+	} else if len(argCells) > 0 {
+		return
 	}
 
 	// lazily observed models (Plan.LoudObs)
@@ -511,7 +557,62 @@ func (x *runCtx) execOp(tc *taskCtx, opi int, op Op) {
 	if x.plan.AliasArgs {
 		op = x.aliasArgs(tc, op)
 	}
-	callOp(a, op, obj, theErr, &out)
+	var live []unsafe.Pointer
+	var argBefore []string
+	if len(argCells) > 0 {
+		// the recorded operation carries the VALUES of the objects passed, so
+		// that the calm and fresh-process evaluations rebuild them - as
+		// distinct objects, whatever aliased what here
+		fn := findExtra(a.Ver(), op.S)
+		args := strings.Split(op.S2, "\x1f")
+		for len(args) < len(fn.Params) {
+			args = append(args, "")
+		}
+		k := 0
+		for i, kind := range fn.Params {
+			if kind != "obj" && kind != "objptr" {
+				continue
+			}
+			ac := x.cells[argCells[k]]
+			b := a.Bytes(ac.p)
+			if argCells[k] != op.C {
+				x.frameCheck(tc, opi, argCells[k], b)
+			}
+			args[i] = "o:" + hex.EncodeToString([]byte(b))
+			live = append(live, ac.p)
+			argBefore = append(argBefore, b)
+			k++
+		}
+		op.S2 = strings.Join(args, "\x1f")
+		op.A = ""
+		r.op = op
+		tc.probes.ObjArgs++
+		for i, c1 := range argCells {
+			if c1 == op.C {
+				tc.probes.ObjArgAliased++
+			}
+			for _, c2 := range argCells[:i] {
+				if c1 == c2 {
+					tc.probes.ObjArgAliased++
+				}
+			}
+		}
+	}
+	callOp(a, op, obj, theErr, &out, live)
+	for k, i := range argCells {
+		// an unknown function may change an object it was given a pointer to
+		ac := x.cells[i]
+		now := a.Bytes(ac.p)
+		if i != op.C && now != argBefore[k] && (ac.spec.Mode == mPriv || ac.spec.Mode == mLock) {
+			ac.last = now
+			ac.nMut++
+			ac.note("extra " + op.S + " (as argument)")
+			if x.modelOn() {
+				ac.model = observe(a, ac.p)
+				x.afterMutation(tc, opi, ac, i, "extra")
+			}
+		}
+	}
 
 	if op.K == kParse && op.V == 20 {
 		if t := rt.Cur(); t != nil && t.LastPoolStale > countParts(op.S) {
@@ -929,7 +1030,10 @@ func runPlan(p *Plan, trace bool, collectCover bool) *runResult {
 	cfg := p.simConfig(trace)
 	if cfg.MaxPoints <= 0 {
 		// only there to end runs in which a library call never finishes
-		cfg.MaxPoints = 400000 + 20000*int64(p.nOps())
+		cfg.MaxPoints = 400000 + 20000*int64(p.nOps()) + 400*p.argBytes()
+		if p.BudgetX > 1 {
+			cfg.MaxPoints *= p.BudgetX
+		}
 	}
 	sim := rt.New(cfg, nPoints, collectCover)
 	x.sim = sim
